@@ -1,6 +1,6 @@
 (* C20 — LDAP URL parameters are extracted as RFC 4516 defines them. Pinned statements only. *)
 From Coq Require Import List NArith Lia Bool Arith.
-From Coq.Strings Require Import Byte.
+From Coq.Strings Require Import Byte String.
 From L3 Require Import Ber Utf8 Filter UrlParams.
 Import ListNotations.
 
@@ -23,6 +23,38 @@ Proof. exact UrlParams.c20_roundtrip_ext. Qed.
 Theorem c20_pdec_penc : forall s, pdec (penc s) = s.
 Proof. exact UrlParams.pdec_penc. Qed.
 
+(* defaults for the omitted components *)
+Theorem c20_defaults : forall base, Utf8.valid base = true ->
+  get_url_params ("/"%byte :: penc base) None =
+  UOk {| p_base := base; p_attrs := [s2b "*"%string]; p_scope := Subtree; p_filter := s2b "(objectClass=*)"%string; p_exts := [] |}.
+Proof. exact UrlParams.c20_defaults. Qed.
+Theorem c20_defaults_after_attrs : forall base attrs, Utf8.valid base = true -> attrs <> [] -> Forall attr_ok attrs ->
+  get_url_params ("/"%byte :: penc base) (Some (join ","%byte attrs)) =
+  UOk {| p_base := base; p_attrs := attrs; p_scope := Subtree; p_filter := s2b "(objectClass=*)"%string; p_exts := [] |}.
+Proof. exact UrlParams.c20_defaults_after_attrs. Qed.
+(* the error classes: an invalid scope word, a base that does not decode to UTF-8, an unknown critical extension; an unknown non-critical one is ignored *)
+Theorem c20_bad_scope : forall base attrs w rest, Utf8.valid base = true -> attrs <> [] -> Forall attr_ok attrs ->
+  w <> [] -> no_byte "?"%byte w -> beqs w (s2b "base"%string) = false -> beqs w (s2b "one"%string) = false -> beqs w (s2b "sub"%string) = false ->
+  get_url_params ("/"%byte :: penc base) (Some (join ","%byte attrs ++ "?"%byte :: w ++ "?"%byte :: rest)) = UErr EScope.
+Proof. exact UrlParams.c20_bad_scope. Qed.
+Theorem c20_non_utf8_base : forall path query,
+  Utf8.valid (pdec (match path with c :: r => if beq c "/"%byte then r else path | [] => path end)) = false ->
+  get_url_params path query = UErr EUtf8.
+Proof. exact UrlParams.c20_non_utf8_base. Qed.
+Theorem c20_unknown_critical : forall id r acc, no_byte "="%byte id -> known_ext id = false ->
+  do_exts (("!"%byte :: id) :: r) acc = UErr ECritical.
+Proof. exact UrlParams.c20_unknown_critical. Qed.
+Theorem c20_unknown_noncritical_ignored : forall id r acc, no_byte "="%byte id -> known_ext id = false ->
+  (match id with c :: _ => beq c "!"%byte = false | [] => True end) -> do_exts (id :: r) acc = do_exts r acc.
+Proof. exact UrlParams.c20_unknown_noncritical_ignored. Qed.
+
+
 Print Assumptions c20_roundtrip.
 Print Assumptions c20_roundtrip_ext.
 Print Assumptions c20_pdec_penc.
+Print Assumptions c20_defaults.
+Print Assumptions c20_defaults_after_attrs.
+Print Assumptions c20_bad_scope.
+Print Assumptions c20_non_utf8_base.
+Print Assumptions c20_unknown_critical.
+Print Assumptions c20_unknown_noncritical_ignored.
